@@ -81,6 +81,50 @@ def runSession {σ : Type} (fr : Framing) (cfg : ServerCfg σ) (_decode : Decode
   let (chunks, kind) := cutScript script
   handleEvents fr cfg kind hs (readerRun fr chunks)
 
+/-! ### A failing transport write
+
+`reply_with_error_generic` and the reply path of `handle_frame` end with
+`io.write(bytes, …).await?`: an error of the transport's write ends the session
+(`RequestError::Io`).  The fault model: the transport accepts the first `n` reply writes and
+fails the next one.  The request whose reply cannot be written HAS been handled (the handler
+calls happen before the reply is formatted), nothing of its reply reaches the wire, the
+remaining events are never looked at. -/
+
+/-- how a session over a transport with a failing write ends -/
+inductive EndW
+  | kind (k : EndKind)
+  /-- `io.write` failed -/
+  | writeErr
+deriving DecidableEq, Repr
+
+structure SessOutW (σ : Type) where
+  tx : Bytes
+  calls : List Call
+  states : List (Nat × σ)
+  ended : EndW
+
+/-- `handleEvents` over a transport that accepts `n` more reply writes and fails the next -/
+def handleEventsW {σ : Type} (fr : Framing) (cfg : ServerCfg σ) (ended : EndKind) :
+    Nat → List (Nat × σ) → List Event → SessOutW σ
+  | _, hs, [] => ⟨[], [], hs, .kind ended⟩
+  | _, hs, .err e :: _ => ⟨[], [], hs, .kind (.badFrame e)⟩
+  | n, hs, .frame f :: rest =>
+    let o := handleFrame cfg hs f
+    match o.reply, n with
+    | none, n =>
+      let r := handleEventsW fr cfg ended n o.states rest
+      ⟨r.tx, o.calls ++ r.calls, r.states, r.ended⟩
+    | some _, 0 => ⟨[], o.calls, o.states, .writeErr⟩
+    | some p, n + 1 =>
+      let r := handleEventsW fr cfg ended n o.states rest
+      ⟨frameOut fr f p ++ r.tx, o.calls ++ r.calls, r.states, r.ended⟩
+
+/-- `SessionTask::run` over a transport whose `(n+1)`-th write fails -/
+def runSessionW {σ : Type} (fr : Framing) (cfg : ServerCfg σ) (_decode : DecodeLevel)
+    (n : Nat) (hs : List (Nat × σ)) (script : List SessStep) : SessOutW σ :=
+  let (chunks, kind) := cutScript script
+  handleEventsW fr cfg kind n hs (readerRun fr chunks)
+
 /-- the level in force after a prefix of the script -/
 def levelAfter (l : DecodeLevel) : List SessStep → DecodeLevel
   | [] => l
